@@ -63,10 +63,18 @@ Theorem C01_async_read_stable : forall a b k t,
 Proof. exact async_read_stable. Qed.
 Print Assumptions C01_async_read_stable.
 
-Theorem C01_async_served_read_bumps_max_ts : forall a k t rs x, t <> max_ts ->
-  t <= a_max (arun_from (astep a (ABase (Get k t rs))) x).
+Theorem C01_async_served_read_bumps_max_ts : forall a k t rs, t <> max_ts -> t <= a_max (astep a (ABase (Get k t rs))).
 Proof. exact served_get_max. Qed.
 Print Assumptions C01_async_served_read_bumps_max_ts.
+
+(* per-region max_ts: the store of C01_async_read_stable is ONE region; [ATransfer m] moves its leader (max_ts := whatever
+   the new leader had seen, not synced: async prewrites / 1PC are refused, MaxTimestampNotSynced), [ARefresh f] installs a
+   fresh oracle ts and re-enables them. C01_async_read_stable holds across any number of moves; its only demand on a
+   refresh is t <= f ([base_rule]), which the joint-trace rules give (the refresh ts is the one just fetched): *)
+Theorem C01_async_refresh_rule : forall t tr a T ret, jrules a T ret tr = true -> t <= T ->
+  forallb (fun c => match c with ARefresh f => t <=? f | _ => true end) (reqs_of tr) = true.
+Proof. exact jrules_refresh. Qed.
+Print Assumptions C01_async_refresh_rule.
 
 (* 2PC with no oracle-order hypothesis (SI/TwoPC.v): along a joint trace of oracle issues, store requests and
    acknowledgements the rules [trules] are checked - (T1) oracle strictly increasing, (T2) a commit ts carried by a commit /
@@ -265,6 +273,27 @@ Example ex_async_run : a_max (arun (firstn 3 ex_async)) = T 5
   /\ forallb (base_rule 1 (T 5) (flat_map cmd_pairs (abase_run (arun (firstn 3 ex_async)) (skipn 3 ex_async)))) (skipn 3 ex_async) = true
   /\ read_at (a_st (arun ex_async)) 1 (T 5) = Some 17 /\ read_at (a_st (arun ex_async)) 1 (T 8) = Some 33.
 Proof. vm_compute. repeat split. Qed.
+(* the same across a leader transfer: the new leader knows nothing (max_ts 0), refuses the async prewrite until it is
+   refreshed with a timestamp issued after the read; then min_commit_ts = 7 + 1 *)
+Definition ex_async_move : list acmd :=
+  [ ABase (Prewrite [mkMut MPut 1 17 AsNone false] 1 (T 1) 0 1 0 false); ABase (Commit [1] (T 1) (T 3));
+    ABase (Get 1 (T 5) []);
+    ATransfer 0; AsyncPrewrite [mkMut MPut 1 33 AsNone false] 1 (T 4) 0 1 0 false;
+    ARefresh (T 7); AsyncPrewrite [mkMut MPut 1 33 AsNone false] 1 (T 4) 0 1 0 false;
+    ABase (Commit [1] (T 4) (T 5)); ABase (Commit [1] (T 4) (T 8)) ].
+Example ex_async_move_run :
+  abase (arun (firstn 4 ex_async_move)) (nth 4 ex_async_move (ACheckSecondary [] 0)) = []
+  /\ returned_mc (arun (firstn 6 ex_async_move)) (nth 6 ex_async_move (ACheckSecondary [] 0)) = [T 7 + 1]
+  /\ abase (arun (firstn 7 ex_async_move)) (nth 7 ex_async_move (ACheckSecondary [] 0)) = []
+  /\ oracle_ts (abase_run a0 (firstn 3 ex_async_move) ++ abase_run (arun (firstn 3 ex_async_move)) (skipn 3 ex_async_move)) = true
+  /\ forallb (base_rule 1 (T 5) (flat_map cmd_pairs (abase_run (arun (firstn 3 ex_async_move)) (skipn 3 ex_async_move)))) (skipn 3 ex_async_move) = true
+  /\ read_at (a_st (arun ex_async_move)) 1 (T 5) = Some 17 /\ read_at (a_st (arun ex_async_move)) 1 (T 8) = Some 33.
+Proof. vm_compute. repeat split. Qed.
+(* without the sync guard the read breaks: a refresh below the read ts (rule violated) lets the commit at 5 through *)
+Example ex_async_move_bad :
+  let bad := firstn 5 ex_async_move ++ [ARefresh (T 2); AsyncPrewrite [mkMut MPut 1 33 AsNone false] 1 (T 4) 0 1 0 false; ABase (Commit [1] (T 4) (T 4 + 1))] in
+  forallb (base_rule 1 (T 5) []) (skipn 3 bad) = false /\ read_at (a_st (arun bad)) 1 (T 5) = Some 33.
+Proof. vm_compute. split; reflexivity. Qed.
 Example ex_jrules : jrules a0 0 [] [JTso 10; JReq (AsyncPrewrite [mkMut MPut 1 33 AsNone false] 1 10 0 1 11 false); JAck 11; JTso 20] = true
   /\ jrules a0 0 [] [JTso 10; JReq (OnePC [mkMut MPut 1 33 AsNone false] 1 10 0 1 0 false); JAck 9; JTso 11] = false.
 Proof. vm_compute. split; reflexivity. Qed.
